@@ -596,7 +596,7 @@ def no_shared_class_state(ctx, rule, prefixes, floor, why):
                     if verdict == 'mutated':
                         bad = True
                         ctx.bad(rule, q, 'class-level mutable attribute %s = %s, changed in place by %s' % (tgt, U(val)[:30], U(where)[:60]),
-                                why, None, st)
+                                why, None, st, firm=True)
                     elif verdict == 'escapes':
                         bad = True
                         ctx.unk(rule, q, 'class-level mutable attribute %s is passed to %s, which may or may not change it' % (tgt, U(where)[:60]))
@@ -621,7 +621,7 @@ def no_aliased_containers(ctx, rule, prefixes, floor, why):
                 bad = True
                 fn = enclosing_func(m, node)
                 q = '%s::%s' % (rel, next((k for k, f in m.funcs.items() if f is fn), ''))
-                ctx.bad(rule, q, 'one container for several places: %s' % U(node)[:80], why, None, node)
+                ctx.bad(rule, q, 'one container for several places: %s' % U(node)[:80], why, None, node, firm=True)
     if ctx.floor(rule, prefixes[0], n, floor, 'assignments in %s' % ', '.join(prefixes)) and not bad:
         ctx.ok(rule, prefixes[0], 'no freshly built container is bound to two places by one chained assignment (%d assignments)' % n)
 
@@ -662,3 +662,36 @@ def negated_slice_bounds(ctx, rule, prefixes, lower_bounds, floor, why):
                         ctx.bad(rule, q, 'slice bound -(%s) can be -0' % U(e)[:60], why, {'lower_bound': lb, 'table': lower_bounds}, node)
     if ctx.floor(rule, prefixes[0], n, floor, 'slices in %s' % ', '.join(prefixes)) and not bad:
         ctx.ok(rule, prefixes[0], 'no slice bound of the form -<expression> can be -0 (%d slices)' % n)
+
+
+def no_mutable_defaults(ctx, rule, prefixes, floor, why):
+    """A default argument is evaluated once, when the function is defined: a list / dict / set default that the function keeps
+    (stores in an attribute, returns) or changes in place is shared by every call that omits the argument.  Violation when the
+    parameter is stored into an attribute / container or mutated in place; harmless when it is only read."""
+    n = 0
+    bad = False
+    for rel, m in sorted(ctx.repo.modules.items()):
+        if not rel.startswith(tuple(prefixes)):
+            continue
+        for lname, fn in sorted(m.funcs.items()):
+            a = fn.args
+            pos = a.posonlyargs + a.args
+            pairs = list(zip(pos[len(pos) - len(a.defaults):], a.defaults)) + [(p_, d) for p_, d in zip(a.kwonlyargs, a.kw_defaults) if d is not None]
+            n += len(pos) + len(a.kwonlyargs)
+            for p_, d in pairs:
+                if not builds_mutable(d):
+                    continue
+                name = p_.arg
+                q = '%s::%s' % (rel, lname)
+                verdict, where = _place_uses(fn, lambda x: isinstance(x, ast.Name) and x.id == name and isinstance(x.ctx, ast.Load))
+                kept = [s_ for s_ in ast.walk(fn) if isinstance(s_, ast.Assign) and isinstance(s_.value, ast.Name) and s_.value.id == name
+                        and any(isinstance(t, (ast.Attribute, ast.Subscript)) for t in s_.targets)]
+                if verdict == 'mutated' or kept:
+                    bad = True
+                    ctx.bad(rule, q, 'mutable default argument %s=%s is %s' % (name, U(d), 'kept: ' + U(kept[0])[:50] if kept else 'changed in place'),
+                            why, None, kept[0] if kept else where, firm=True)
+                elif verdict == 'escapes':
+                    bad = True
+                    ctx.unk(rule, q, 'mutable default argument %s=%s is passed to %s' % (name, U(d), U(where)[:50]))
+    if ctx.floor(rule, prefixes[0], n, floor, 'parameters in %s' % ', '.join(prefixes)) and not bad:
+        ctx.ok(rule, prefixes[0], 'no mutable default argument is kept or changed in place (%d parameters)' % n)
